@@ -41,6 +41,13 @@ BOUNDS["C04"] = {
     "thorough": "as C03 thorough",
     "outside": "bit flips of proof octets, scalar-granular truncation/extension (length strictness is C09), other public key, forgeries built without a signature, serde-deserialized proofs",
 }
+BOUNDS["C05"] = {
+    "quick": "issuance (L, M) in {(0,0), (1,0), (0,1)}; blind presentation (L, M) in {(0,0), (1,0), (0,1), (1,1)} with all messages disclosed; header None/empty/1/2 octets",
+    "thorough": "issuance additionally (1,1), (2,1), (1,2), (0,2); presentation (2,1), (1,2); both suites",
+    "outside": "hidden messages in blind proofs; symbolic committed scalars / key / challenge / blinding; L + M > 3",
+}
+BOUNDS["C06"] = {"quick": "the C05 shapes x edits (bit flip per segment, committed message, blinding factor, header, signer message; disclosed committed message in proofs)", "thorough": "as C05 thorough", "outside": "cross-suite replay; wrong signer-message count; index-list swaps; whole-scalar truncation/extension"}
+BOUNDS["C07"] = {"quick": "proof_gen: (L, disclosed) in {(0,{}), (1,{}), (1,{0}), (2,{0})} plus two consecutive generations for (1,{}) and (2,{1}); commit: M in {0,1}; blind_proof_gen: U = 1", "thorough": "L <= 3", "outside": "more than 16 draws per harness; threads; KeyPair::random; statistical properties"}
 ASSUMPTIONS = {
     "*": [
         "bls12_381_plus is replaced by a prime-order bilinear group model (elements = discrete logs mod Q, Q in {13,31,251}); its real field/curve/pairing arithmetic and codecs are outside the claim",
@@ -54,6 +61,9 @@ ASSUMPTIONS = {
         "declared counts (n of update_signature) count as input size",
     ],
     "C09": [],
+    "C05": ["programmed random oracle with octet capture", "fixed draw table (feature fixedrand)", "sk = 5; e-answer, challenge and committed-message scalars concrete", "B != identity"],
+    "C06": ["as C05", "independent answers for different queries"],
+    "C07": ["rand model: thread_rng yields the table values 3,5,7,11,13,17,19,23,29,31,37,41,43,47,53,59 in order"],
     "C03": ["programmed random oracle with octet capture of the two challenge queries", "rand model returns a fixed table of distinct non-zero values (feature fixedrand)", "sk = 5, e = 9, challenge state 77 concrete", "B != identity"],
     "C04": ["as C03", "distinct oracle queries get independent answers"],
     "C01": ["programmed random oracle: expand_message answers are unconstrained symbols (feature prog of the elliptic-curve model, one static struct)", "stub Generators::create -> fixed pure table", "sk + e != 0, B != identity (inversion of zero is assumed away in the model under Kani)"],
